@@ -42,8 +42,29 @@ def generate(rnd, tier):
     else:
         fg = fml.FGen(rnd, cg, lits, dict(numq=0.1, unused=0.0, connectives=("and", "or", "not", "implies")))
         tname, f = "fgen", fg.formula([("start", "<start>")], rnd.randint(1, 3))
-    mode = "check_parse" if rnd.random() > 0.15 else pick(rnd, ["repair", "repair", "mutate"])
+    mode = "check_parse" if rnd.random() > 0.3 else pick(rnd, ["repair", "repair", "repair", "mutate"])
     t = pick(rnd, trees)
+    if mode == "repair" and chance(rnd, 0.6):
+        # a conjunction of two constraints and an input that violates exactly ONE conjunct: a repair has to keep the
+        # other conjunct intact
+        more = trees + [gen.tree(rnd, cg, "<start>", rnd.randint(1, 5), md, bias=0.8) for _ in range(6)]
+        for _ in range(6):
+            n1, f1 = solvergen.template(rnd, cg, lits, name)
+            n2, f2 = solvergen.template(rnd, cg, lits, name)
+            f1, f2 = solvergen.rename_bound(f1, "a"), solvergen.rename_bound(f2, "b")
+            hit = None
+            for cand in more:
+                try:
+                    v1, fl1, _ = fml.sat(cg, cand, f1)
+                    v2, fl2, _ = fml.sat(cg, cand, f2)
+                except fml.Undecided:
+                    continue
+                if not fl1 and not fl2 and v1 != v2:
+                    hit = cand
+                    break
+            if hit is not None:
+                tname, f, t = "conj(%s,%s)" % (n1, n2), ["and", f1, f2], hit
+                break
     s = rt.tyield(t)
     cls = "tree"
     if mode == "check_parse" and chance(rnd, 0.3):
@@ -233,7 +254,11 @@ def health(stats, tier):
     n = max(1, stats["evaluations"])
     rm = c.get("mode:repair", 0) + c.get("mode:mutate", 0)
     crashes = sum(v for k, v in c.items() if k.startswith("crash:"))
-    if rm >= 20 and crashes > 0.25 * rm:
+    if rm >= 20 and crashes > 0.5 * rm:
+        # (observed on the unchanged tree: 10-30% of repair calls on conjunctive constraints trip internal
+        # assertions of the solver -- transform_smt_formula, expand_to_match_quantifiers; the property speaks
+        # about what repair returns, so those are recorded, not judged; a majority of crashes means repair is
+        # broken as a whole)
         return "repair/mutate crashed in %d of %d cases: %s" % (crashes, rm, {k: v for k, v in c.items() if k.startswith("crash:")})
     for k in ("syntactically_invalid", "semantically_valid", "semantically_invalid"):
         if c.get(k, 0) < 0.05 * n:
